@@ -1510,3 +1510,92 @@ Proof.
 Qed.
 
 
+
+(* ------------------------------------------------------------------ the barrier block RUNS between
+   (statement on the log of what has happened, not on the state in which the block is pending) *)
+Definition LInv (s : bst) : Prop :=
+  forall l1 l2 id, b_log s = l1 ++ LBar id :: l2 ->
+    exists pre post, b_sub s = pre ++ IBar id :: post /\
+      (forall op, In (IEnq op) pre -> In (LDone op) l1) /\
+      (forall op, In (IEnq op) post -> ~ In (LEnq op) l1).
+
+Lemma snoc_split {A} (l l1 l2 : list A) x y : l ++ [x] = l1 ++ y :: l2 ->
+  (l2 = [] /\ x = y /\ l1 = l) \/ (exists l2', l2 = l2' ++ [x] /\ l = l1 ++ y :: l2').
+Proof.
+  intros E. destruct l2 as [|z t].
+  - apply app_inj_tail in E. destruct E as [-> ->]. left. auto.
+  - right. destruct (@exists_last _ (z :: t)) as (l2' & w & E2); [discriminate|]. rewrite E2 in *.
+    change (l1 ++ y :: l2' ++ [w]) with (l1 ++ (y :: l2') ++ [w]) in E. rewrite app_assoc in E.
+    apply app_inj_tail in E. destruct E as [-> ->]. exists l2'. auto.
+Qed.
+
+Lemma LInv_log_same s s' : LInv s -> b_log s' = b_log s -> (exists extra, b_sub s' = b_sub s ++ extra /\
+    forall op, In (IEnq op) extra -> ~ In (LEnq op) (b_log s)) -> LInv s'.
+Proof.
+  intros L E (extra & Es & Hx) l1 l2 id Hl. rewrite E in Hl.
+  destruct (L l1 l2 id Hl) as (pre & post & S & A & B).
+  exists pre, (post ++ extra). rewrite Es, S, <- app_assoc. cbn. split; auto. split; auto.
+  intros op H X. apply in_app_or in H. destruct H as [H|H]; [now apply (B op)|].
+  apply (Hx op H). rewrite Hl. apply in_or_app. now left.
+Qed.
+
+Lemma step_LInv a s e : BI s -> LInv s -> bsub_ok s e -> LInv (bstep a s e).
+Proof.
+  intros I L Hok. pose proof I as (ND & L1 & L2 & (W1 & W2) & (P1 & P2) & P3 & F).
+  (* appending a non-barrier entry to the log, submissions unchanged *)
+  assert (APP : forall s' x, b_log s' = b_log s ++ [x] -> (forall id, x <> LBar id) -> b_sub s' = b_sub s -> LInv s').
+  { intros s' x El Nx Es l1 l2 id Hl. rewrite El in Hl.
+    destruct (snoc_split _ _ _ _ _ Hl) as [(_ & X & _)|(l2' & -> & Hl')]; [exfalso; eapply Nx; eauto|].
+    destruct (L l1 l2' id Hl') as (pre & post & S & A & B). exists pre, post. rewrite Es. auto. }
+  destruct e as [i| |op| |id]; cbn [bstep].
+  - (* submit: the new block is behind everything; it has not been enqueued *)
+    apply (LInv_log_same s); auto. exists [i]. unfold b_sub. cbn. rewrite app_assoc. split; auto.
+    intros op [->|[]] X. apply Hok. unfold b_sub. apply in_or_app. left. now apply L1.
+  - destruct (b_susp s) eqn:S; [|exact L].
+    destruct (b_q s) as [|[op|id] rest] eqn:Q; [exact L| |].
+    + apply (APP _ (LEnq op)); auto; [discriminate|]. unfold b_sub. cbn. rewrite Q, <- app_assoc. reflexivity.
+    + destruct (b_out s); (apply (LInv_log_same s); auto; exists []; unfold b_sub; cbn; rewrite Q, <- app_assoc, app_nil_r;
+        split; auto; intros ? []).
+  - destruct (zmem op (b_out s)) eqn:M; [|exact L].
+    destruct (zremove op (b_out s)); [destruct a; [|destruct (b_notifs s)]|];
+      (apply (APP _ (LDone op)); auto; discriminate).
+  - destruct (b_wake s); [exact L|]. apply (LInv_log_same s); auto. exists []. unfold b_sub. cbn. rewrite app_nil_r.
+    split; auto. intros ? [].
+  - (* the barrier block runs: the facts of barrier_between hold in this very state *)
+    destruct (zmem id (b_fired s)) eqn:M; [|exact L].
+    apply zmem_In in M. intros l1 l2 id' Hl. cbn in Hl.
+    destruct (snoc_split _ _ _ _ _ Hl) as [(-> & X & ->)|(l2' & -> & Hl')].
+    + inversion X; subst id'. 
+      assert (O : b_out s = []) by (apply F; intros Y; rewrite Y in M; contradiction).
+      destruct (P3 id) as [pre E]; [apply in_or_app; now right|].
+      exists pre, (b_q s). unfold b_sub in *. cbn. rewrite E, <- app_assoc. split; [reflexivity|]. split.
+      * intros op H. destruct (L2 op) as [H1|H1]; auto.
+        -- rewrite E. apply in_or_app. now left.
+        -- rewrite O in H1. contradiction.
+      * intros op H Y. apply L1 in Y. rewrite E in ND. eapply NoDup_app_disj; eauto. now rewrite <- E.
+    + destruct (L l1 l2' id' Hl') as (pre & post & S & A & B). exists pre, post. unfold b_sub in *. cbn. auto.
+Qed.
+
+Lemma run_BI_LInv a evs : forall s, BI s -> LInv s -> brun_ok a s evs -> BI (brun a s evs) /\ LInv (brun a s evs).
+Proof.
+  induction evs as [|e t IH]; intros s I L H; simpl; auto. destruct H.
+  apply IH; auto; [now apply step_BI|now apply step_LInv].
+Qed.
+
+(* for every run and every barrier that HAS RUN (its LBar is in the log): every operation submitted before the barrier
+   was disposed (LDone: dispatch_group_leave in _dispatch_operation_dispose: all of its I/O is over and its final handler
+   invocation has been submitted to its queue) before the barrier block ran, and no operation submitted after it was
+   enqueued (LEnq: dispatch_group_enter in _dispatch_operation_enqueue, before which it performs no I/O) before that *)
+Theorem barrier_runs_between : forall a evs l1 l2 id,
+  brun_ok a b_init evs ->
+  let s := brun a b_init evs in
+  b_log s = l1 ++ LBar id :: l2 ->
+  exists pre post, b_sub s = pre ++ IBar id :: post /\
+    (forall op, In (IEnq op) pre -> In (LDone op) l1) /\
+    (forall op, In (IEnq op) post -> ~ In (LEnq op) l1).
+Proof.
+  intros a evs l1 l2 id Hok s Hl.
+  assert (L : LInv s).
+  { apply (run_BI_LInv a evs b_init); auto. apply BI_init. intros x y z E. cbn in E. destruct x; discriminate. }
+  now apply L.
+Qed.
